@@ -493,11 +493,16 @@ class DictList(list):
             list.__setitem__(self, i, y)
             self._generate_index()
             return
-        # in case a rename has occurred
-        if self._dict.get(self[i].id) == i:
-            self._dict.pop(self[i].id)
+        old_id = self[i].id
+        if i < 0:
+            i += len(self)
         the_id = y.id
-        self._check(the_id)
+        # an id may only be re-used at the position it already occupies
+        if self._dict.get(the_id, i) != i:
+            self._check(the_id)
+        # in case a rename has occurred
+        if self._dict.get(old_id) == i:
+            self._dict.pop(old_id)
         list.__setitem__(self, i, y)
         self._dict[the_id] = i
 
